@@ -161,6 +161,28 @@ theorem camera_viewport_frame_preserved_partial (w h : Nat) (r1 req : Rect) (c1 
 example : (Camera.new 64 48 : Camera ℚ).setViewport ⟨none, none, none, none⟩ = .ok (Camera.new 64 48) := by
   rw [setViewport_eq]; simp [Camera.new, absDiff]
 
+/-- The guard under which `Camera.perspective` is modelled as a value: a non-zero height. With `dims.1 = 0` the
+f32 code computes an infinite (or NaN) aspect ratio and returns a matrix with `e11 = inf` (or panics); the model has
+the explicit outcomes `nonfinite: …` / panic there and never `.ok`. -/
+theorem camera_perspective_ok_height_pos (c c' : Camera K) (f n fa : K) (h : c.perspective f n fa = .ok c') :
+    c.dims.2 ≠ 0 := by
+  intro h0
+  unfold Camera.perspective at h
+  rw [if_pos h0] at h
+  split_ifs at h
+
+example : ((Camera.new 4 3 : Camera ℚ).perspective 1 (1 / 10) 100).isOk = true := by decide +kernel
+
+/-- … and with a positive height it is `perspective()` with aspect ratio `dims.0 / dims.1`. -/
+theorem camera_perspective_eq (c : Camera K) (f n fa : K) (h : c.dims.2 ≠ 0) :
+    (∀ p, Mat.perspective f ((c.dims.1 : K) / (c.dims.2 : K)) n fa = .ok p →
+      c.perspective f n fa = .ok { c with project := p }) ∧
+    (∀ m, Mat.perspective f ((c.dims.1 : K) / (c.dims.2 : K)) n fa = .panic m →
+      c.perspective f n fa = .panic m) := by
+  unfold Camera.perspective
+  rw [if_neg h]
+  exact ⟨fun p hp => by rw [hp], fun m hm => by rw [hm]⟩
+
 /-! ### pinhole projection through the whole camera -/
 
 /-- **cam_project_pinhole.** With a perspective projection of focal ratio `f` and aspect ratio `a`, a
